@@ -169,6 +169,15 @@ def Block.wf (s : Nat) (b : Block) : Prop := b.valid ≤ b.mem.length ∧ s ∣ 
 /-- the records in the valid part of a block -/
 def Block.records (s : Nat) (b : Block) : List (List Nat) := recordsOf s (b.mem.take b.valid)
 
+/-- A `Stream` writing `bytes` record by record into chain blocks of `cap` bytes (stream.hh): a
+block is passed on when it is full; `Poison` passes the current block with `ValidSize` = what it
+holds (its memory beyond that is whatever was there: `pad`).  Fuel ≥ number of blocks. -/
+def streamToBlocks (cap : Nat) (pad : Buf) : Nat → Buf → List Block
+  | 0, bytes => [⟨bytes ++ pad, bytes.length⟩]
+  | f + 1, bytes =>
+    if 0 < cap ∧ cap ≤ bytes.length then ⟨bytes.take cap, cap⟩ :: streamToBlocks cap pad f (bytes.drop cap)
+    else [⟨bytes ++ pad, bytes.length⟩]
+
 /-! ### a queue entry's file buffer at byte level -/
 
 /-- `MergeQueue::Entry` (sort.hh:154-200) in bytes: `buf` = the bytes from `current_` to
